@@ -2,6 +2,7 @@
 K3: every iteration over a set in the compiler feeds name-keyed tables only; no hidden inputs (time, random, id,
 hash, object reprs) outside Math.random/Date.now/limit checks.  B: generated closure-heavy programs with a known
 result (Python twin) under 16 hash seeds and in shuffled batch orders."""
+from pyvc import structural as _S_
 from pyvc import groups
 from pyvc.groups import ob
 
@@ -21,11 +22,11 @@ def c15_struct(tier="quick", seed=0):
             continue
         for n in ast.walk(f):
             if isinstance(n, ast.Call) and getattr(n.func, "id", "") in ("list", "tuple", "sorted", "enumerate", "next", "iter") and n.args and isinstance(n.args[0], ast.Name) and n.args[0].id in set_names:
-                consumers.append((f.name, n.lineno, ast.unparse(n)))
+                consumers.append((f.name, n.lineno, _S_.unparse(n)))
             if isinstance(n, ast.For) and isinstance(n.iter, ast.Name) and n.iter.id in set_names:
-                consumers.append((f.name, n.lineno, "for " + ast.unparse(n.target) + " in " + n.iter.id))
+                consumers.append((f.name, n.lineno, "for " + _S_.unparse(n.target) + " in " + n.iter.id))
             if isinstance(n, ast.Call) and isinstance(n.func, ast.Attribute) and n.func.attr == "pop" and isinstance(n.func.value, ast.Name) and n.func.value.id in set_names:
-                consumers.append((f.name, n.lineno, ast.unparse(n)))
+                consumers.append((f.name, n.lineno, _S_.unparse(n)))
     allowed_forms = ("list(captured)", "list(required_free)", "for var in local_vars_set", "for var in nested_free")
     bad = [c for c in consumers if c[2] not in allowed_forms]
     out.append(ob("C15.struct.set-order-consumers", not bad and len(consumers) >= 4, "K3",
@@ -42,15 +43,15 @@ def c15_struct(tier="quick", seed=0):
     # 2. slots are always resolved by name
     for fn, pat in (("_get_local", "self.locals.index(name)"), ("_get_cell_var", "self._cell_vars.index(name)"), ("_get_free_var", "self._free_vars.index(name)"),
                     ("_add_local", "self.locals.index(name)")):
-        src = ast.unparse(S.fn("microjs.compiler", "Compiler." + fn))
+        src = _S_.unparse(S.fn("microjs.compiler", "Compiler." + fn))
         out.append(ob(f"C15.struct.by-name.{fn}", pat in src, "K3", f"{fn} resolves the slot with {pat}"))
-    ops = ast.unparse(S.fn("microjs.vm", "VM._execute_opcode"))
+    ops = _S_.unparse(S.fn("microjs.vm", "VM._execute_opcode"))
     out.append(ob("C15.struct.make-closure-by-name", "frame.func.cell_vars.index(var_name)" in ops and "frame.func.free_vars.index(var_name)" in ops and "for var_name in compiled_func.free_vars" in ops, "K3",
                   "MAKE_CLOSURE wires every free variable by name"))
-    inv = ast.unparse(S.fn("microjs.vm", "VM._invoke_js_function"))
+    inv = _S_.unparse(S.fn("microjs.vm", "VM._invoke_js_function"))
     out.append(ob("C15.struct.cells-by-name", "for var_name in compiled.cell_vars" in inv and "compiled.locals.index(var_name)" in inv, "K3", "cell storage is initialised by name"))
     # positional reuse of another function's slot table would be order dependent: no zip / [i] over free_vars / cell_vars
-    pos = [ast.unparse(n)[:60] for n in ast.walk(S.source().modules["microjs.vm"].tree)
+    pos = [_S_.unparse(n)[:60] for n in ast.walk(S.source().modules["microjs.vm"].tree)
            if isinstance(n, ast.Subscript) and isinstance(n.value, ast.Attribute) and n.value.attr in ("free_vars", "cell_vars") and not isinstance(n.ctx, ast.Store)]
     out.append(ob("C15.struct.no-positional-slot-tables", not pos, "K3", f"positional reads of free_vars/cell_vars in vm.py: {pos}"))
     # 3. hidden inputs
@@ -71,7 +72,7 @@ def c15_struct(tier="quick", seed=0):
                 continue
             for n in own_nodes(f):
                 if isinstance(n, ast.Call):
-                    t = ast.unparse(n.func)
+                    t = _S_.unparse(n.func)
                     if t in ("id", "hash", "os.urandom", "os.getpid", "random.random", "random.randint", "time.time", "time.monotonic", "time.perf_counter", "uuid.uuid4"):
                         hidden.append((mod.split(".")[-1], f.name, t))
     allowed = {("vm", "run", "time.monotonic"), ("vm", "_check_limits", "time.monotonic"), ("vm", "check_timeout", "time.monotonic"), ("vm", "<lambda>", "time.monotonic"),
